@@ -1488,6 +1488,44 @@ def _feeders(b, operand):
     return out
 
 
+def _agg_sources(b, operand, adt, depth=0, seen=None):
+    """(bb, si) of the `adt` aggregate statements whose value the operand can hold, looking through whole-local moves, `Some(x)`/`Ok(x)` wrapping,
+    `?` (Try::branch / from_residual) and payload projections (how a value built inside an expanded helper `-> Option<adt>` reaches the caller's
+    local); payload-less aggregates (`None`) on the way are skipped.  None when some definition is not understood."""
+    seen = set() if seen is None else seen
+    if operand.get("k") not in ("copy", "move") or depth > 40:
+        return None
+    l = operand["place"]["l"]
+    if l in seen:
+        return set()
+    seen.add(l)
+    if 0 < l <= b.arg_count:
+        return None
+    out = set()
+    for bb, si, rv in b.defs_of(l):
+        if si == "term":
+            if call_matches(rv, r"FromResidual.*::from_residual$"):
+                r_ = set()         # the early exit of `?`: None / Err(..), carries no value of the success type
+            elif call_matches(rv, r"Try>?::branch$|Option::<T>::(ok_or|ok_or_else)$|Result::<T, E>::ok$") and rv["args"]:
+                r_ = _agg_sources(b, rv["args"][0], adt, depth + 1, seen)
+            else:
+                return None
+        elif rv["k"] == "use" and rv["a"]["k"] in ("copy", "move"):
+            r_ = _agg_sources(b, rv["a"], adt, depth + 1, seen)
+        elif rv["k"] == "agg" and rv.get("ak") == "adt" and rv.get("adt") == adt:
+            r_ = {(bb, si)}
+        elif rv["k"] == "agg" and rv.get("ak") == "adt" and len(rv["fields"]) == 1 and rv["fields"][0]["k"] in ("copy", "move"):
+            r_ = _agg_sources(b, rv["fields"][0], adt, depth + 1, seen)
+        elif rv["k"] == "agg" and rv.get("ak") == "adt" and not rv["fields"]:
+            r_ = set()
+        else:
+            return None
+        if r_ is None:
+            return None
+        out |= r_
+    return out
+
+
 def _next_ordinals(b):
     """{block of a next() call: (iterator place, ordinal among the calls on that iterator by dominance)}"""
     cfg = b.cfg()
@@ -1569,10 +1607,9 @@ def _t7_fields(c, name, path, b, specs):
             return
         rv = ts[0][2]["rv"]
         for fname, f in zip(rv["fnames"], rv["fields"]):
-            l = _bare(f)
-            d = _single_def(b, l) if l is not None else None
-            if d is not None and d[1] != "term":
-                role_of[(d[0], d[1])] = fname
+            srcs = _agg_sources(b, f, "terminal::Size")
+            if srcs is not None and len(srcs) == 1:
+                role_of[next(iter(srcs))] = fname
     used_specs = set()
     for i, si, s in aggs:
         rv = s["rv"]
@@ -1662,13 +1699,18 @@ def t7(ctx):
         # expanded in place (prog.inlined): extracting a helper does not change which number reaches which field
         rec = _Recorder()
         _t7_fields(rec, name, path, plain, specs)
-        if any(k in ("violation", "anchor") for k, a_, kw in rec.items):
-            inl = prog.inlined(path)
+        # (then also helpers shared with other functions: multi=True)
+        for multi in (False, True):
+            if not any(k in ("violation", "anchor") for k, a_, kw in rec.items):
+                break
+            inl = prog.inlined(path, multi=multi)
             if inl is not None and inl is not plain:
                 rec2 = _Recorder()
                 _t7_fields(rec2, name, path, inl, specs)
                 if not any(k in ("violation", "anchor") for k, a_, kw in rec2.items):
                     rec = rec2
+                elif not any(k == "violation" for k, a_, kw in rec.items) and any(k == "violation" for k, a_, kw in rec2.items):
+                    rec = rec2      # the expanded view names the wrong field; the plain one only misses the aggregate
         rec.replay(ctx)
 
 
